@@ -412,7 +412,7 @@ impl State {
                 CURRENT_INFIX.to_string(),
             ),
             Naming::NumbersDirect => {
-                let idx = match numbers::get_highest_index(&self.config.file_spec) {
+                let mut idx = match numbers::get_highest_index(&self.config.file_spec) {
                     None => 0,
                     Some(idx) => {
                         // (the newest file can only be continued if it is a plain file)
@@ -429,6 +429,22 @@ impl State {
                         }
                     }
                 };
+                // (a directory that cannot be read yields no file at all: a file that is
+                // not to be continued never gets a number whose file exists)
+                if !self.config.append {
+                    loop {
+                        let path = self
+                            .config
+                            .file_spec
+                            .as_pathbuf(Some(&numbers::number_infix(idx)));
+                        let mut path_with_gz = path.clone().into_os_string();
+                        path_with_gz.push(".gz");
+                        if !path.exists() && !PathBuf::from(path_with_gz).exists() {
+                            break;
+                        }
+                        idx = numbers::next_index(idx)?;
+                    }
+                }
                 (NamingState::NumbersDirect(idx), numbers::number_infix(idx))
             }
         };
